@@ -333,6 +333,52 @@ def flag_and_opcode_starts(res, ctx, rng, names):
         res.case(('flag-and-opcode-starts', name))
 
 
+def customised_errno_table(res, ctx, rng, names):
+    """The errno-NAME table is a public module-level dict of the library (bsd.DARWIN_ERRORCODE) and a caller may complete it:
+    add the codes a newer release defines, give every number a name (0 included: 'no error'), or put a mapping with a
+    default in its place.  Names are presentation; WHETHER a call failed is the END record's error word alone - zero shows
+    no errno and the success value, non-zero shows exactly that code and no success value."""
+    import collections
+    from pykdebugparser.trace_handlers import bsd
+    original = bsd.DARWIN_ERRORCODE
+    variants = {
+        'extended in place with 0 and 107': lambda: original.update({0: 'ENOERROR', 107: 'ENOTCAPABLE'}),
+        'replaced by a defaultdict': lambda: setattr(bsd, 'DARWIN_ERRORCODE', collections.defaultdict(lambda: 'E?', saved)),
+        'replaced by a dict naming every number 0..255': lambda: setattr(bsd, 'DARWIN_ERRORCODE', {**{i: f'E{i}' for i in range(256)}, **saved}),
+    }
+    saved = dict(original)
+    sample = [n for i, n in enumerate(names) if i % 5 == 0 and n not in DECLARED_EXCLUSIONS] + ['BSC_pipe', 'BSC_read']
+    try:
+        for label, apply in variants.items():
+            original.clear()
+            original.update(saved)
+            bsd.DARWIN_ERRORCODE = original
+            apply()
+            for name in sample:
+                start = domain.gen_words(rng, name, 'S')
+                for end in ((0, 5, 6, 0), (0, 0, 0, 77), (13, 5, 6, 0), (107, 5, 0, 0), (200, 5, 0, 0)):
+                    try:
+                        text = render_outer(name, start, list(end))
+                    except Exception as x:
+                        res.violation(f'c10-raises-{core.exc_name(x)}', f'{name} with the errno-name table {label}: {x!r}',
+                                      {'name': name, 'start': start, 'end': list(end)})
+                        return
+                    res.count('renderings_under_a_customised_errno_name_table')
+                    res.case(('customised-errno-table', label, name, end))
+                    part = split_result(text)[1] if text else None
+                    m = SMALL_ERRNO_RE.search(part or '')
+                    shown = int(m.group(1) or m.group(2)) if m else None
+                    if text is None or shown != (end[0] or None):
+                        res.violation('c10-error-word-not-shown' if end[0] else 'c10-errno-on-success',
+                                      f'{name} with the library\'s errno-name table {label}: END {list(end)}: the line reads {text!r}',
+                                      {'name': name, 'start': start, 'end': list(end)})
+                        return
+    finally:
+        original.clear()
+        original.update(saved)
+        bsd.DARWIN_ERRORCODE = original
+
+
 def renumbered_tables(res, ctx, rng, names):
     """Two code tables in one process that give ONE event id to two different calls: the bundled one, and a supplied one
     in which two calls have swapped ids (a release that renumbers them).  Calls whose results are formatted in a way of
@@ -476,6 +522,8 @@ def run(ctx):
         shared_front_end(res, ctx, rng)
     if ctx.shard == 0:
         renumbered_tables(res, ctx, rng, [n for n in inv['bsd'] if n not in DECLARED_EXCLUSIONS])
+    if ctx.shard == 1 or ctx.nshards == 1:
+        customised_errno_table(res, ctx, rng, sorted(inv['bsd']))
     if ctx.shard == 0:
         res.sample({'decoder': 'BSC_read', 'success': render_outer('BSC_read', (3, 0x1000, 64, 0), (0, 64, 0, 0)),
                     'error': render_outer('BSC_read', (3, 0x1000, 64, 0), (35, 64, 0, 0)),
@@ -491,6 +539,7 @@ def run(ctx):
     res.require('long_windows', 20)
     res.require('scale_windows', 10)
     res.require('flag_and_opcode_start_renderings', 10000)
+    res.require('renderings_under_a_customised_errno_name_table', 300)
     res.require('boundary_return_words_checked', 200)
     res.require('stream_windows_one_thread', 20)
     res.require('file_windows_v3', 20)
